@@ -2,5 +2,5 @@
 # Runs the repository's pinned test suite with the verification guard OFF and compares with BASELINE.json.
 unset ESRALLY_VERIF_SIM
 out="${1:-/tmp/esrally-verif-baseline.junit.xml}"
-cd /repo && /venv/bin/python -m pytest -ra -q -p no:cacheprovider --timeout=900 --continue-on-collection-errors -n 8 --junitxml="$out" >/dev/null 2>&1
+cd /repo && /venv/bin/python -m pytest -ra -q -p no:cacheprovider --timeout=900 --continue-on-collection-errors --junitxml="$out" >/dev/null 2>&1
 /venv/bin/python /verif/tools/baseline_compare.py "$out"
